@@ -344,12 +344,15 @@ def c05(ctx):
     ctx.coverage["exhaustive"] = True
     traces, metas = [], []
 
-    def add(kind, data, cuts, fault="none", fault_at=0, ms=None, cut=0, src="", send_errno=errno.EPIPE, cfgkw=None):
-        peer = rng.choice(PEERS)
+    def add(kind, data, cuts, fault="none", fault_at=0, ms=None, cut=0, src="", send_errno=errno.EPIPE, cfgkw=None, maxapp=1000,
+            peer=None):
+        """maxapp: for streams without message descriptors, how many of its requests a correct server may hand to the
+        application at most"""
+        peer = peer if peer is not None else rng.choice(PEERS)
         if cfgkw and cfgkw.get("proxy_protocol"):
             peer = PEERS[0]
         ev, info = serve_stream(kind, data, cuts, fault, fault_at, send_errno, cfgkw, peer=peer)
-        traces.append({"ms": ms or [], "cut": cut, "oracle": 1 if ms else 0,
+        traces.append({"ms": ms or [], "cut": cut, "oracle": 1 if ms else 0, "maxapp": maxapp,
                        "fault": "send" if fault == "send" else "recv" if fault.startswith("recv") else "none", "ev": ev})
         metas.append({"kind": kind, "bytes": data[:300].decode("latin-1"), "cuts": cuts[:10], "fault": fault,
                       "fault_at": fault_at, "src": src, "escaped": info["escaped"], "wire": info["wire"], "cfgkw": cfgkw,
@@ -410,10 +413,23 @@ def c05(ctx):
                     data = pl + base
                     if ctx.quick and rng.random() < 0.5:
                         continue
-                    add(kind, data, hp.rand_cuts(rng, len(data)), src="proxy", cfgkw={"proxy_protocol": True, "proxy_allow_ips": allow})
+                    # (a PROXY line is part of the first request of a connection only: what follows a second one is refused)
+                    add(kind, data, hp.rand_cuts(rng, len(data)), src="proxy", cfgkw={"proxy_protocol": True, "proxy_allow_ips": allow},
+                        maxapp=1 if pl and base.count(b"PROXY") else 1000)
                     k = rng.randrange(len(data) + 1)
                     add(kind, data[:k], [], fault=rng.choice(["none", "recv_eofreset"]), src="proxy-truncated",
                         cfgkw={"proxy_protocol": True, "proxy_allow_ips": allow})
+    # 5b. refusals decided after the parser has accepted the request: a trusted peer names a SCRIPT_NAME the path does not
+    # start with (ConfigurationProblem, raised while the environ is built); alone, after a served request, cut, and with the
+    # client gone while the error page is written
+    mism = b"GET /other HTTP/1.1\r\nHost: h\r\nSCRIPT_NAME: /x\r\n\r\n"
+    for kind in KINDS:
+        for data, mx in ((mism, 0), (VALID[4] + mism, 2), (mism + VALID[0], 0),
+                         (b"POST /o HTTP/1.1\r\nHost: h\r\nScript_Name: /mount\r\nContent-Length: 3\r\n\r\nabc", 0)):
+            add(kind, data, hp.rand_cuts(rng, len(data)), src="late-refusal", maxapp=mx, peer=PEERS[0])
+            add(kind, data, [], fault="recv_eofreset", src="late-refusal+reset", maxapp=mx, peer=PEERS[0])
+            for at in range(0, 60, 3 if not ctx.quick else 13):
+                add(kind, data, [], fault="send", fault_at=at, src="late-refusal-sendfail", maxapp=mx, peer=PEERS[0])
     # 6. real processes: the keep-alive wait of the async / threaded workers (timers cannot be scripted in-process)
     from props.reload_real import _parallel
     plan = [("gevent", b""), ("gevent", b"GET /second HTT"), ("gthread", b"GET /second HTT")] if ctx.quick else \
@@ -436,6 +452,8 @@ def c05(ctx):
     for t, m in _parallel(hplan, lambda a, i: real_hostile(a[0], a[1]), par=8):
         traces.append(t)
         metas.append(m)
+    for t in traces:
+        t.setdefault("maxapp", 1000)
     verdicts, stats = tlc.validate_batch("ConnTrace", "ConnTrace.cfg", traces, name="ConnTrace_C05", chunk=4000)
     ctx.add_traces(len(traces), stats)
     for t, m, (v, step) in zip(traces, metas, verdicts):
